@@ -64,6 +64,8 @@ def run(chk):
     r3_split(chk, repo)
     r4_replace(chk, repo)
     r5_sum_waveform(chk, repo)
+    from .c18 import r7_stale_locals
+    r7_stale_locals(chk, repo, "C19.R6", [BUILD, MERGE, SPLIT])
 
 
 def _top(body, pred):
